@@ -52,9 +52,46 @@ def outside(r, p):
     return s
 
 
+def absolute_tolerance(conds):
+    """The constant c of an undecided test `p - bound + c < 0` (a difference of two of the
+    coordinates / bounds shifted by a non-zero constant), or None."""
+    from ..interp import Cmp, NotC
+    names = {'x', 'y', 'xmin', 'xmax', 'ymin', 'ymax'}
+    for c in conds:
+        while isinstance(c, NotC):
+            c = c.c
+        if not (isinstance(c, Cmp) and isinstance(c.a, Sym) and isinstance(c.b, Sym)):
+            continue
+        e = c.a - c.b
+        atoms = e.all_atoms()
+        if not atoms or not all(a[0] == 'v' for a in atoms):
+            continue
+        zero = {a: Sym.const(0) for a in atoms}
+        k = e.subs(zero)
+        lin = e - k
+        if not (k.is_const() and k.const_value() != 0):
+            continue
+        # the variable part is +-(one quantity - another quantity)
+        coefs = []
+        ok = True
+        for a in atoms:
+            one = dict(zero)
+            one[a] = Sym.const(1)
+            v = lin.subs(one)
+            if not v.is_const():
+                ok = False
+                break
+            coefs.append(v.const_value())
+        if ok and sorted(coefs) == [-1, 1]:
+            return k.const_value()
+    return None
+
+
 def check_clip_code(ck, prog):
     fn = prog.func('plot_utils.clip_code')
-    if fn.params != ['x_in', 'y_in', 'x_min', 'x_max', 'y_min', 'y_max']:
+    if fn.params[:6] != ['x_in', 'y_in', 'x_min', 'x_max', 'y_min', 'y_max'] or \
+            len(fn.params) - 6 > len(fn.node.args.defaults) or fn.node.args.vararg or \
+            fn.node.args.kwarg:
         raise AnalysisError('clip_code signature changed')
     ck.saw('functions', fn.qualname + ' @ ' + fn.loc())
     x, y = V('x'), V('y')
@@ -66,6 +103,19 @@ def check_clip_code(ck, prog):
                               ({'p': y, 'lo': YMIN, 'hi': YMAX}, ry)])
             outs = Interp(prog, case).run(fn, [x, y, XMIN, XMAX, YMIN, YMAX])
             if len(outs) != 1 or outs[0].kind != 'return' or outs[0].state.path:
+                tol = absolute_tolerance(case.undecided)
+                if tol is not None:
+                    c = abs(tol)
+                    ck.ob('C08-D1-region-code', 'clip_code::absolute-tolerance', False,
+                          'a region test compares the point with a boundary moved by the constant '
+                          '%s: everything within %s of the rectangle counts as inside, whatever '
+                          'the coordinate scale.  With the rectangle [0, %s] x [0, %s] the segment '
+                          '(%s, 0)-(%s, %s) lies four rectangle widths to the right of it and is '
+                          'still accepted unchanged (the tolerance of the property is relative '
+                          'to the coordinate scale)' % (float(c), float(c), float(c / 10),
+                                                         float(c / 10), float(c / 2),
+                                                         float(c / 2), float(c / 10)),
+                          fn.loc(), key='clip_code::absolute-tolerance')
                 raise AnalysisError('clip_code not decided by the order type: %r' % (
                     case.undecided[:2],))
             v = outs[0].value
@@ -95,6 +145,98 @@ def check_clip_code(ck, prog):
               fn.loc(), key='clip_code::regions')
     ck.sample({'clip_code_bits': bits, 'regions': len(table)})
     return bits
+
+
+def exact_clip(w):
+    """Liang-Barsky in exact arithmetic: (t0, t1) of the part of the segment inside the closed
+    rectangle, or None when no point of the segment is inside."""
+    from fractions import Fraction as Fr
+    x1, y1, x2, y2 = w['x_1'], w['y_1'], w['x_2'], w['y_2']
+    t0, t1 = Fr(0), Fr(1)
+    for p, q in ((-(x2 - x1), x1 - w['x_min']), (x2 - x1, w['x_max'] - x1),
+                 (-(y2 - y1), y1 - w['y_min']), (y2 - y1, w['y_max'] - y1)):
+        if p == 0:
+            if q < 0:
+                return None
+            continue
+        r = q / p
+        if p < 0:
+            t0 = max(t0, r)
+        else:
+            t1 = min(t1, r)
+    if t0 > t1:
+        return None
+    return t0, t1
+
+
+def check_shortcuts(ck, prog, fn, it, pro, seg0, bnd, loop):
+    from fractions import Fraction as Fr
+    from ..order import WitnessCase
+    pts = [Fr(k) for k in (-1, 0, 1, 2, 3, 4, 5)]
+    n_taken = 0
+    found = None
+    saved = it.hooks
+    try:
+        for a in pts:
+            for b in pts:
+                for c in pts:
+                    for d in pts:
+                        w = {'x_1': a, 'y_1': b, 'x_2': c, 'y_2': d, 'x_min': Fr(1),
+                             'x_max': Fr(3), 'y_min': Fr(1), 'y_max': Fr(3)}
+                        case = WitnessCase(w)
+                        it.hooks = case
+                        outs = list(it.exec_block(pro, State(env={'segment': seg0, 'bounds': bnd})))
+                        if len(outs) != 1 or outs[0].state.path:
+                            raise AnalysisError('clip_segment: a test ahead of the loop is not '
+                                                'decided on a concrete input: %r'
+                                                % (case.undecided[:1],))
+                        o = outs[0]
+                        if o.kind != 'return':
+                            continue
+                        n_taken += 1
+                        v = o.value
+                        if not (isinstance(v, Tup) and len(v.items) == 2 and v.items[0] in (TRUE, FALSE)):
+                            raise AnalysisError('clip_segment: shortcut returns %r' % (v,))
+                        want = exact_clip(w)
+                        got_flag = v.items[0] == TRUE
+                        seg_txt = '((%s,%s),(%s,%s))' % (a, b, c, d)
+                        if want is None:
+                            if got_flag:
+                                found = ('the segment %s has no point in the rectangle '
+                                         '((1,1),(3,3)) but is accepted' % seg_txt)
+                        elif want[0] < want[1] or (a, b) == (c, d):
+                            if not got_flag:
+                                found = ('the segment %s has a part inside the rectangle '
+                                         '((1,1),(3,3)) but is rejected' % seg_txt)
+                            else:
+                                try:
+                                    got = [[x.evaluate(w) for x in p_.items] for p_ in v.items[1].items]
+                                except Exception as exc:
+                                    raise AnalysisError('clip_segment: shortcut result not '
+                                                        'evaluable: %s' % exc)
+                                exp = [[a + t * (c - a), b + t * (d - b)] for t in want]
+                                if got != exp:
+                                    found = ('for the segment %s and the rectangle ((1,1),(3,3)) '
+                                             'the shortcut returns %s; the part inside is %s'
+                                             % (seg_txt, [[str(x) for x in p_] for p_ in got],
+                                                [[str(x) for x in p_] for p_ in exp]))
+                        if found:
+                            break
+                    if found:
+                        break
+                if found:
+                    break
+            if found:
+                break
+    finally:
+        it.hooks = saved
+    ck.ob('C08-D7-shortcut', 'clip_segment::return-ahead-of-the-loop[%d inputs took it]' % n_taken,
+          found is None, 'a return ahead of the clipping loop gives a wrong answer: %s' % found,
+          fn.loc(loop), key='clip_segment::shortcut')
+    if found is None:
+        raise AnalysisError('clip_segment returns ahead of its loop on some inputs; the returned '
+                            'values agree with exact clipping on %d sampled inputs, which is not '
+                            'a proof: cannot conclude' % n_taken)
 
 
 def run(ck, prog, tier):
@@ -131,9 +273,19 @@ def run(ck, prog, tier):
     it.stack.append(fn)
     seg0 = Tup((Tup((X1, Y1), 'list'), Tup((X2, Y2), 'list')), 'list')
     bnd = Tup((Tup((XMIN, YMIN), 'list'), Tup((XMAX, YMAX), 'list')), 'list')
-    outs = list(it.exec_block(body[:body.index(loop)], State(env={'segment': seg0, 'bounds': bnd})))
+    pro = body[:body.index(loop)]
+    outs = list(it.exec_block(pro, State(env={'segment': seg0, 'bounds': bnd})))
     if len(outs) != 1 or outs[0].kind != 'fall':
-        raise AnalysisError('clip_segment prologue is not straight-line')
+        falls = [o for o in outs if o.kind == 'fall']
+        if falls and all(o.kind in ('fall', 'return') for o in outs) and \
+                all(o.state.env == falls[0].state.env for o in falls):
+            # shortcut returns ahead of the loop: each is judged on exact rational inputs
+            # against the geometric meaning of clipping; the loop is analysed as before
+            check_shortcuts(ck, prog, fn, it, pro, seg0, bnd, loop)
+            outs = [falls[0]]
+            outs[0].state.path = ()
+        else:
+            raise AnalysisError('clip_segment prologue is not straight-line')
     st0 = outs[0].state
     # identify roles of locals from the prologue (unpacking of segment/bounds is resolved here)
     roles = {}
